@@ -6,11 +6,12 @@ form, constants to 1e-5), compass conversion table of aspect (finite threshold-c
 binding from the wrapper, hillshade's vectorised model.  Does not decide floating-point rounding or hillshade's range.
 """
 import ast
+import math
 from fractions import Fraction
 
 from ..backends import backend_paths, reachable
 from ..kai import Arr, TupleV, cond_repr, interpret, flatten_and
-from ..kutil import (CannotEvaluate, evaluate, returned_arrays, Spec, approx_equal, eval_cond, eval_rat, find_loops_over, guard_atoms, numeric, offsets,
+from ..kutil import (CannotEvaluate, evaluate, eval_cond_full, returned_arrays, Spec, approx_equal, eval_cond, eval_rat, find_loops_over, guard_atoms, numeric, offsets,
                      reads_in, show)
 from ..program import AnalysisIncomplete, Func, norm
 from ..sym import App, Rat, Sym, subst, walk_atoms
@@ -367,8 +368,14 @@ def check_aspect(prog, rep):
     want_flat = {cond_key(cmp_cond('==', dzdx, Rat.const(0))), cond_key(cmp_cond('==', dzdy, Rat.const(0)))}
     ok = len(flat) == 1 and flat[0].value == Rat.const(-1) and \
         {cond_key(g) for g in flatten_and(flat[0].guards)} == want_flat
+    # ... decided by evaluation where the stores can be evaluated: for the nine sign patterns of (dz_dx, dz_dy) the store that
+    # fires gives -1 exactly on the flat pattern and the compass bearing of atan2(dz_dy, -dz_dx) on the others - special cases
+    # (due north / south set exactly) included, whatever the number of constant stores
+    ev_ok = _aspect_patterns(kern, k, stores, data, yv, xv)
+    if ev_ok is not None:
+        ok = ev_ok[0]
     rep.add('L5-flat', kern, entry, norm(flat[0].node) if flat else 'flat-surface store', 
-            flat[0].node.lineno if flat else kern.node.lineno, ok,
+            flat[0].node.lineno if flat else kern.node.lineno, ok, (ev_ok[1] + '; ' if ev_ok is not None and ev_ok[1] else '') +
             'aspect must be -1 exactly when both Horn gradient components are 0; guards found: %s'
             % ([cond_repr(g)[:120] for g in flat[0].guards] if flat else None))
     # non-flat: each under not-flat and compass guards; value linear in t
@@ -423,6 +430,41 @@ def check_curvature(prog, rep):
     nan_containment(rep, kern, entry, stores, data)
     cellsize_binding(prog, rep, pub, path, f0, kern, kern.params, {'cellsize': '(cellsize_x + cellsize_y) / 2'})
     return kern
+
+
+def _aspect_patterns(kern, k, stores, data, yv, xv):
+    """(ok, why) from evaluating the aspect stores on the nine sign patterns of the Horn gradient, None when not evaluable"""
+    one = Rat.const(1)
+    cell = lambda dy_, dx_: App('read', [data, yv + Rat.const(dy_), xv + Rat.const(dx_)])      # noqa
+    bad = []
+    try:
+        for dx in (-1, 0, 1):
+            for dy in (-1, 0, 1):
+                env = {cell(a_, b_): Fraction(0) for a_ in (-1, 0, 1) for b_ in (-1, 0, 1)}
+                env[cell(0, 1)] = Fraction(dx, 2)        # dz_dx = 2 * (east - west)
+                env[cell(1, 0)] = Fraction(dy, 2)        # dz_dy = 2 * (south row - north row)
+                for s in stores:
+                    for a in walk_atoms((s.value, tuple(s.guards))):
+                        if isinstance(a, App) and a.name == 'arctan2' and a not in env:
+                            y_, x_ = (evaluate(z, env) for z in a.args)
+                            env[a] = Fraction(math.atan2(float(y_), float(x_)))
+                fired = [s for s in stores if all(eval_cond_full(g, env) for g in s.guards)]
+                if not fired:
+                    bad.append('no store for (dz_dx, dz_dy) = (%d, %d)' % (dx, dy))
+                    continue
+                got = evaluate(fired[-1].value, env)
+                if dx == 0 and dy == 0:
+                    want = Fraction(-1)
+                else:
+                    t = math.degrees(math.atan2(dy, -dx))
+                    want = Fraction(90 - t if t <= 90 else 450 - t)
+                    if want == 360 and got == 0:
+                        want = Fraction(0)
+                if abs(got - want) > Fraction(1, 10 ** 6):
+                    bad.append('(dz_dx, dz_dy) = (%d, %d): %s, expected %s' % (dx, dy, float(got), float(want)))
+    except (CannotEvaluate, KeyError, ZeroDivisionError, ValueError):
+        return None
+    return (not bad, '; '.join(bad[:3]))
 
 
 def nan_containment(rep, kern, entry, stores, data):
